@@ -1,15 +1,13 @@
 package scratch
-import ("testing";"fmt";"strings";"runtime/debug"
- "github.com/bufbuild/protocompile/parser"
- "github.com/bufbuild/protocompile/reporter")
-func try(src string){
- defer func(){ if p:=recover();p!=nil{ fmt.Printf("PANIC %v  <= %q\n%s\n",p,src,debug.Stack())}}()
- h:=reporter.NewHandler(reporter.NewReporter(func(e reporter.ErrorWithPos) error { return nil}, nil))
- root,err:=parser.Parse("f.proto", strings.NewReader(src), h)
- fmt.Printf("err=%v <= %q\n",err,src)
- _,err=parser.ResultFromAST(root, true, reporter.NewHandler(reporter.NewReporter(func(e reporter.ErrorWithPos) error { return nil}, nil)))
- fmt.Println("result err",err)
-}
+import ("testing";"fmt";"strings"
+ "pgregory.net/rapid"
+ "verif/harness/gen")
 func TestS(t *testing.T){
- try("message A{extensions 1[N,n={}]}")
+ n,hit:=0,0
+ rapid.Check(t, func(rt *rapid.T){
+  ws:=gen.GenWorkspace(rt, gen.Config{})
+  n++
+  for _,s:=range ws.PrintAll(){ if strings.Contains(s,"MyField myField")||strings.Contains(s,".MyField myField") { hit++; if hit<3 {fmt.Println(s)}; break } }
+ })
+ fmt.Println("cases",n,"hit",hit)
 }
